@@ -5,6 +5,8 @@ import importlib
 import json
 import time
 
+import z3
+
 from engine import symex
 from engine.symex import Loader, explore, model_value, to_native, PatchDoesNotApply
 
@@ -101,6 +103,8 @@ def run_ob(spec):
                   timeout_s=spec['args'].get('timeout_s', H.timeout_s))
     out = dict(status=res.status, stats=res.stats, detail=res.reason or (res.exc or ''),
                functions=H.functions, engine='E1')
+    if res.status == 'unsat' and kind == 'holds' and not patches:
+        out['stats']['conformance'] = _conformance(H, cfg, ctx, int(spec['args'].get('conformance_points', 2)))
     if res.status == 'sat':
         cex = {}
         for k, v in terms.items():
@@ -113,6 +117,73 @@ def run_ob(spec):
         out['replayed'] = ok
         out['detail'] = (out['detail'] + ' | replay: ' + detail).strip(' |')
     return out
+
+
+def _input_terms(v, acc):
+    if isinstance(v, symex.Sym) and z3.is_expr(v.t) and not z3.is_bool(v.t):
+        acc.append(v.t)
+    elif isinstance(v, (list, tuple)):
+        for x in v:
+            _input_terms(x, acc)
+    elif isinstance(v, dict):
+        for x in v.values():
+            _input_terms(x, acc)
+
+
+def _conformance(H, cfg, ctx, n):
+    """Engine-conformance guard: the obligation was just shown `unsat` on the symbolic encoding, so the
+    predicate must also hold when the *unshadowed* modules (IEEE doubles, C-level round/format) run on concrete
+    points of the input domain.  Points are solver models of the harness' input constraints.  A point where the
+    native run says False is a disagreement between encoding and real code (or a floating-point effect the
+    real-arithmetic claim leaves outside) and is listed in the evidence."""
+    import z3 as _z3
+    res = dict(points=0, agree=0, refused=0, disagree=[])
+    try:
+        c = symex.CTX
+        c.solver = _z3.Solver()
+        c.solver.set('timeout', 10000)
+        c.decisions, c.pos, c.trace, c.pending, c.fresh, c.round_cache, c.active = [], 0, [], [], 0, {}, False
+        ins = H.inputs(ctx, cfg)
+        terms = []
+        _input_terms(ins, terms)
+        LN = Loader(shadow=False)
+        for m in H.modules:
+            LN.load(m)
+        nctx = H.build(LN, cfg)
+        for i in range(n):
+            c.solver.set('random_seed', 17 + i)
+            if c.solver.check() != _z3.sat:
+                break
+            model = c.solver.model()
+            cex = {k: _model_of(model, v) for k, v in ins.items()}
+            nat = H.native_inputs({k: _native_deep(v) for k, v in cex.items()}) if hasattr(H, 'native_inputs') else cex
+            res['points'] += 1
+            try:
+                ok = H.prop(nctx, cfg, **nat)
+            except H.allowed(nctx):
+                res['refused'] += 1
+                ok = True
+            except Exception as e:
+                ok = False
+                res['disagree'].append(dict(inputs=json.dumps(nat, default=str)[:300], error='%s: %s' % (type(e).__name__, e)))
+            else:
+                if not ok:
+                    res['disagree'].append(dict(inputs=json.dumps(nat, default=str)[:300]))
+            if ok:
+                res['agree'] += 1
+            if terms:
+                vals = [model.eval(t, model_completion=True) for t in terms]
+                diff = [t != v for t, v in zip(terms, vals)]
+                c.solver.push()
+                c.solver.add(_z3.And(*diff))
+                if c.solver.check() != _z3.sat:
+                    c.solver.pop()
+                    c.solver.add(_z3.Or(*diff))
+            else:
+                break
+    except BaseException as e:  # noqa: harness constructs that need an active path
+        res['skipped'] = '%s: %s' % (type(e).__name__, str(e)[:200])
+    return res
 
 
 def _model_of(model, v):
